@@ -173,3 +173,16 @@ def c02pins():
 
 if __name__ == '__main__':
     c02pins()
+
+
+def c03pins():
+    s = Ty('SET', root=[M('c', Ty('BOOLEAN', tag=Tag('CONTEXT', 16384))), M('b', Ty('BOOLEAN', tag=Tag('CONTEXT', 16383))),
+                        M('a', Ty('BOOLEAN', tag=Tag('APPLICATION', 1)))],
+           ext=[M('z', Ty('NULL', tag=Tag('CONTEXT', 0)), optional=True)])
+    pin('C03', 'set-unsorted', mod([('A', s)], tagdefault='IMPLICIT'), 'A',
+        {'a': True, 'b': True, 'c': False, 'z': None}, codec='der')
+    pin('C03', 'real-mantissa-leading-zero', mod([('A', Ty('REAL'))]), 'A', 255.0, codec='der')
+
+
+if __name__ == '__main__':
+    c03pins()
